@@ -26,6 +26,20 @@ type spec struct {
 
 type lawViolation string
 
+// an order that carries the generation (batch id) it was placed in: a tick's orders are served generation by generation
+type genOrder struct {
+	amm.Order
+	gen uint64
+}
+
+func (o *genOrder) GetBatchID() uint64 { return o.gen }
+
+type gspec struct {
+	price string
+	amt   int64
+	gen   uint64
+}
+
 func checkBook(t *testing.T, tag string, orders []amm.Order, quoteDiff sdkmath.Int, matched bool) (nontrivial bool) {
 	baseIn, baseOut := sdkmath.ZeroInt(), sdkmath.ZeroInt()
 	quoteIn, quoteOut := sdkmath.ZeroInt(), sdkmath.ZeroInt()
@@ -219,12 +233,82 @@ func TestVerifC05BookLaws(t *testing.T) {
 	}
 	rec(0, nil, nil)
 	secondFamily := fmt.Sprintf("prices in %v, amounts in %v, last price in %v", prices2, amts2, lastPrices)
+	// third family: ticks that hold orders of two generations (batch ids) and are visited more than once in a matching run
+	prices3 := []string{"1.05", "1.1", "1.2"}
+	amts3 := []int64{100, 150}
+	gens3 := []uint64{1, 2}
+	lastPrices3 := []string{"1.0", "1.15", "1.3"}
+	var gspecs []gspec
+	for _, p := range prices3 {
+		for _, a := range amts3 {
+			for _, g := range gens3 {
+				gspecs = append(gspecs, gspec{p, a, g})
+			}
+		}
+	}
+	var sides [][]gspec
+	for i := range gspecs {
+		sides = append(sides, []gspec{gspecs[i]})
+		for j := i; j < len(gspecs); j++ {
+			sides = append(sides, []gspec{gspecs[i], gspecs[j]})
+		}
+	}
+	for _, buys := range sides {
+		for _, sells := range sides {
+			for _, lp := range lastPrices3 {
+				for mode := 0; mode < 2; mode++ {
+					ob := amm.NewOrderBook()
+					var orders []amm.Order
+					for _, b := range buys {
+						pr := utils.ParseDec(b.price)
+						o := &genOrder{amm.NewBaseOrder(amm.Buy, pr, sdkmath.NewInt(b.amt), amm.OfferCoinAmount(amm.Buy, pr, sdkmath.NewInt(b.amt))), b.gen}
+						orders = append(orders, o)
+						ob.AddOrder(o)
+					}
+					for _, sl := range sells {
+						pr := utils.ParseDec(sl.price)
+						o := &genOrder{amm.NewBaseOrder(amm.Sell, pr, sdkmath.NewInt(sl.amt), sdkmath.NewInt(sl.amt)), sl.gen}
+						orders = append(orders, o)
+						ob.AddOrder(o)
+					}
+					tag := fmt.Sprintf("generations: buys=%v sells=%v last=%s mode=%d", buys, sells, lp, mode)
+					var diff sdkmath.Int
+					var matched bool
+					if mode == 0 {
+						_, diff, matched = ob.Match(utils.ParseDec(lp))
+					} else {
+						diff, matched = ob.MatchAtSinglePrice(utils.ParseDec(lp))
+					}
+					evals++
+					func() {
+						defer func() {
+							if r := recover(); r != nil {
+								lv, ok := r.(lawViolation)
+								if !ok {
+									panic(r)
+								}
+								bad++
+								if firstBad == "" {
+									firstBad = string(lv)
+								}
+								allBad = append(allBad, string(lv))
+							}
+						}()
+						if checkBook(t, tag, orders, diff, matched) {
+							nontriv++
+						}
+					}()
+				}
+			}
+		}
+	}
+	thirdFamily := fmt.Sprintf("orders of generations %v on shared ticks: prices in %v, amounts in %v, last price in %v, 1..2 orders a side", gens3, prices3, amts3, lastPrices3)
 	knownJSON := ""
 	if knownHits > 0 {
 		knownJSON = `"known_finding":{"obligation":"bounded/c05#book-laws","instances":` + strconv.Itoa(knownHits) + `,"example":` + strconv.Quote(knownExample) + `},`
 	}
 	if out := os.Getenv("VERIF_BOUNDED_OUT"); out != "" {
-		os.WriteFile(out, []byte(`{"function":"amm.OrderBook.Match / MatchAtSinglePrice (with FindMatchableAmountAtSinglePrice, DistributeOrderAmountToTick, DistributeOrderAmountToOrders, FulfillOrders)","label":"bounded","bound":"all books with 1..`+strconv.Itoa(maxBuy)+` buy and 1..`+strconv.Itoa(maxSell)+` sell base orders (multisets), two families: `+firstFamily+`; and `+secondFamily+`; both matching modes; exhaustive within the bound","evaluations":`+strconv.Itoa(evals)+`,"violating":`+strconv.Itoa(bad)+`,`+knownJSON+`"distinct_nontrivial":`+strconv.Itoa(nontriv)+`,"rule":"a case is one (book, last price, mode); non-trivial when at least one order is filled","sample":"`+sample+`","laws":["base coin received by buyers == base coin paid by sellers","quote paid - quote received == returned quoteCoinDiff >= 0 and < 2 x filled orders","paid <= offer coin, open amount >= 0","a matched order receives a positive amount","unfilled orders neither pay nor receive"]}`), 0o644)
+		os.WriteFile(out, []byte(`{"function":"amm.OrderBook.Match / MatchAtSinglePrice (with FindMatchableAmountAtSinglePrice, DistributeOrderAmountToTick, DistributeOrderAmountToOrders, FulfillOrders)","label":"bounded","bound":"all books with 1..`+strconv.Itoa(maxBuy)+` buy and 1..`+strconv.Itoa(maxSell)+` sell base orders (multisets), three families: `+firstFamily+`; and `+secondFamily+`; and `+thirdFamily+`; both matching modes; exhaustive within the bound","evaluations":`+strconv.Itoa(evals)+`,"violating":`+strconv.Itoa(bad)+`,`+knownJSON+`"distinct_nontrivial":`+strconv.Itoa(nontriv)+`,"rule":"a case is one (book, last price, mode); non-trivial when at least one order is filled","sample":"`+sample+`","laws":["base coin received by buyers == base coin paid by sellers","quote paid - quote received == returned quoteCoinDiff >= 0 and < 2 x filled orders","paid <= offer coin, open amount >= 0","a matched order receives a positive amount","unfilled orders neither pay nor receive"]}`), 0o644)
 	}
 	if dump := os.Getenv("VERIF_C05_DUMP"); dump != "" {
 		os.WriteFile(dump, []byte(strings.Join(allBad, "\n")+"\n"), 0o644)
